@@ -739,7 +739,12 @@ func lineBoxLayout(context *layoutContext, box_ Box, index int, child_ *bo.LineB
 		// Break box if we reached max-lines
 		if maxLines != -1 {
 			if maxLines == 0 {
-				newChildren[len(newChildren)-1].(*bo.LineBox).BlockEllipsis = box.Style.GetBlockEllipsis()
+				// with max-lines: 0, there is no previous line
+				if L := len(newChildren); L != 0 {
+					if lastLine, ok := newChildren[L-1].(*bo.LineBox); ok {
+						lastLine.BlockEllipsis = box.Style.GetBlockEllipsis()
+					}
+				}
 
 				if traceMode {
 					traceLogger.Dump("lineBoxLayout -> maxLines == 0")
